@@ -2093,6 +2093,11 @@ impl<C: BgpConfig + Send> Session<C> {
     pub fn verif_take_connection(&mut self) -> Option<Connection> {
         self.connection.take()
     }
+    /// Attaches a TCP stream without any FSM action (what `attach_stream`
+    /// does before it raises TcpConnectionConfirmed).
+    pub fn verif_attach_connection(&mut self, stream: OwnedReadHalf) {
+        self.connection = Some(Connection::for_read_half(stream));
+    }
 }
 
 async fn maybe_read_frame(
